@@ -170,4 +170,14 @@ CHECKS = {
         trusted_base=TB,
         assumptions=[],
     ),
+    "C08": dict(
+        packs=["c08"], level="other",
+        explanation="R08.1 (exact) no allocator in the program: the crate graphs of both library crates in every analysed feature configuration contain neither alloc nor std and no type/callee path lives there. R08.2 every explicit panic entry point reachable from non-test, non-mock library code is in an audited table with its reason; the six unreachable!() of the font adapter are proved unreachable on the monomorphic instance closure of text drawing. "
+                    "R08.5 the zero-extent guards at the two anchored sites by dominance. R08.3/R08.4 interval abstract interpretation of arithmetic kernels under display-scale input contracts: every overflow/zero-divisor assert must be proved dead; unproved ones are findings.",
+        claim="Decides the allocation clause exactly and the explicit-panic discipline; arithmetic overflow is decided only inside the kernel table under the stated contracts; termination of iterators is not decided.",
+        note="Host assumption: usize is 64 bit. Interval results are sound only relative to the input contracts listed in the evidence file.",
+        technique="crate-graph and whole-program path scan, audited panic-site inventory, monomorphic reachability, dominance guards, interval abstract interpretation",
+        trusted_base=TB,
+        assumptions=["usize is 64 bit on the analysis host", "display-scale contracts: coordinates within +-4096 after offsets, sizes <= 2560, stroke widths <= 128"],
+    ),
 }
